@@ -376,6 +376,19 @@ def generated_case(ctx, i, rng, res):
     quick = ctx.tier == "quick"
     w = MD.gen_workspace(rng, style=MD.Style(rng) if rng.random() < 0.5 else None, tight=rng.random() < 0.3)
     files = dict(w.files)
+    if rng.random() < 0.35:
+        # fixed-form rendering of the same program (continuation marks in column 6, labels, comment flags)
+        from vf import layout as LY
+        fx = {}
+        for f, t in files.items():
+            lay = LY.to_fixed(LY.lex(t), rng, labelled_do=True, conservative=rng.random() < 0.7)
+            if lay is None:
+                fx = None
+                break
+            fx[f[:-4] + ".f"] = lay.text("\n")
+        if fx:
+            files = fx
+            res.kind("doc:generated-fixed-form")
     if rng.random() < 0.4:
         f = rng.choice(sorted(files))
         for _ in range(rng.randint(1, 3)):
